@@ -1,4 +1,6 @@
 import Netconan.Proofs.SrcTieLines
+import Netconan.Proofs.SrcTieSecrets
+import Netconan.Props.C12
 import Netconan.Props.C15
 /-!
 # C12–C15 on the *translated source* of the per-line loop of `FileAnonymizer.anonymize_io`
@@ -24,5 +26,26 @@ theorem source_line_is_composition (p : Pipeline) (lk : Secrets.Lookup) (line : 
 theorem source_stateless_without_secrets (p : Pipeline) (hs : p.secrets = none) (lk : Secrets.Lookup) (line : List Char) :
     Src.line_step p lk line = (pureStages p line).map (fun o => (o, lk, [])) := by
   rw [SrcTie.line_step_tie]; exact lineStep_stateless p hs lk line
+
+/-- **C12 on the source**: `replace_matching_item` as written changes a line only inside spans matched by one of its patterns, and
+re-attaches the leading / trailing white space and the enclosing characters of the line verbatim -/
+theorem source_secret_stage_changes_only_matched_spans (x : Secrets.Ext) (fs : List Regex.Re)
+    (groups : List (List ((Regex.Re × Option Nat × Option Nat) × String))) (salt input : List Char) (lk : Secrets.Lookup)
+    (out : List Char) (logs : List Secrets.LogRec) (lk' : Secrets.Lookup)
+    (h : Src.replace_matching_item x fs groups input salt lk = .ok ((out, logs), lk')) :
+    ∃ leading body trailing body',
+      leading ++ body ++ trailing =
+        (Secrets.splitLine x.isSpace input).1 ++ Secrets.joinSp (Secrets.splitLine x.isSpace input).2.1 ++
+          (Secrets.splitLine x.isSpace input).2.2 ∧
+      out = leading ++ body' ++ trailing ∧
+      Secrets.Rew (groups.flatten.map (·.1.1)) body body' := by
+  rw [SrcTie.replace_matching_item_tie] at h
+  cases hm : Secrets.replaceMatchingItem x fs groups salt input lk with
+  | error e => simp [hm] at h
+  | ok r =>
+    obtain ⟨o, l, g⟩ := r
+    simp only [hm, Except.ok.injEq, Prod.mk.injEq] at h
+    obtain ⟨⟨rfl, rfl⟩, rfl⟩ := h
+    exact C12.secret_stage_changes_only_matched_spans x fs groups salt input lk _ _ _ hm
 
 end Netconan.Props.SrcLines
